@@ -1,13 +1,103 @@
-"""Concrete probes against the real package (filled in per property)."""
+"""Concrete probes against the real package: look for an input on which the real code violates a property.
+
+A case is fully described by a small JSON dict (generator parameters + seed), so `rerun` reproduces it."""
+from __future__ import annotations
+
+import random
+import time
+import traceback
+
+import oracle as O
+
+
+def gen_case(p):
+    rng = random.Random(p['seed'])
+    nv = p.get('nvars', 1)
+    doms = [O.make_domain(rng, p.get('n', 3), falsy=p.get('falsy', False)) for _ in range(nv)]
+    cond = O.gen_cond(rng, nv, p.get('depth', 2), falsy=p.get('falsy', False),
+                      vocab=tuple(p.get('vocab', ('cmp', 'name', 'truth', 'call', 'contains'))),
+                      neg=p.get('neg', True), nested_neg=p.get('nested_neg', False))
+    return doms, cond
+
+
+def run_case(p):
+    """returns None if the real engine agrees with the reference, else a description of the disagreement."""
+    O.reset_registry()
+    doms, cond = gen_case(p)
+    if p.get('caching', True):
+        O.enable_caching()
+    else:
+        O.disable_caching()
+    try:
+        if p.get('nvars', 1) == 1:
+            got, want, q = O.run_single(doms[0], cond)
+            ok = O.same_list_by_identity(got, want)
+            if ok and p.get('reeval'):
+                got2 = list(q.evaluate())
+                ok = O.same_list_by_identity(got2, want)
+                got = got2
+            if not ok:
+                return {'condition': repr(cond), 'domain': repr(doms[0]), 'got': repr(got), 'want': repr(want)}
+        else:
+            # the condition must mention every variable for a pure join reading
+            got, want, q = O.run_multi(doms, cond)
+            ok = sorted(got) == sorted(want) if p.get('count', True) else set(got) == set(want)
+            if not ok:
+                return {'condition': repr(cond), 'domains': repr(doms), 'got_rows': len(got), 'want_rows': len(want),
+                        'missing': len(set(want) - set(got)), 'extra': len(set(got) - set(want))}
+    except Exception as e:  # noqa
+        return {'condition': repr(cond), 'exception': repr(e), 'trace': traceback.format_exc(limit=4)}
+    finally:
+        O.enable_caching()
+    return None
+
+
+def search(base, seeds, budget_s=60):
+    t0 = time.time()
+    tried = 0
+    for s in seeds:
+        if time.time() - t0 > budget_s:
+            break
+        p = dict(base, seed=s)
+        tried += 1
+        d = run_case(p)
+        if d is not None:
+            return {'found': True, 'input': p, 'detail': d, 'tried': tried}
+    return {'found': False, 'tried': tried}
+
+
+FAMILIES = {
+    # property -> list of generator settings to try (most specific first)
+    'C01': [dict(nvars=1, depth=2, neg=True, nested_neg=False), dict(nvars=1, depth=3, neg=True, nested_neg=True)],
+    'C19': [dict(nvars=1, depth=1, falsy=True, neg=False, vocab=['cmp', 'name', 'contains'])],
+    'C03': [dict(nvars=1, depth=3, neg=True, nested_neg=True), dict(nvars=2, depth=2, neg=True, nested_neg=True)],
+    'C02': [dict(nvars=2, depth=2, neg=False, vocab=['cmp', 'name']), dict(nvars=3, depth=2, neg=False, vocab=['cmp'])],
+    'C05': [dict(nvars=2, depth=2, neg=True, caching=True, reeval=True), dict(nvars=1, depth=3, caching=True, reeval=True)],
+    'C18': [dict(nvars=2, depth=2, neg=False)],
+}
 
 
 def replay(prop, hints):
-    return {'found': False, 'reason': 'no native probe for this property yet'}
-
-
-def standin(name, seed, args):
-    return {'status': 'error', 'error': 'unknown stand-in ' + name, 'failures': []}
+    sigs = hints.get('signatures') or []
+    fams = list(FAMILIES.get(prop, FAMILIES['C01']))
+    # model-guided: a counter-model with a falsy own value in value position asks for falsy data
+    if any(s and s.get('truthy(own value)') == 'False' for s in sigs):
+        fams.insert(0, dict(nvars=1, depth=1, falsy=True, neg=False, vocab=['cmp', 'name', 'contains']))
+    tried = 0
+    for fam in fams:
+        r = search(fam, range(400), budget_s=40)
+        tried += r['tried']
+        if r['found']:
+            r['tried'] = tried
+            return r
+    return {'found': False, 'tried': tried}
 
 
 def rerun(prop, inp):
-    return {'fails': False}
+    d = run_case(inp)
+    return {'fails': d is not None, 'detail': d}
+
+
+def standin(name, seed, args):
+    import standins
+    return standins.run(name, seed, args)
